@@ -54,6 +54,23 @@ fn main() {
             mon_scancode::run::<ScancodeSet1>("C02", &mut rep);
             mon_scancode::readme_crosscheck(&mut rep, 1);
         }
+        "C03" => mon_layout::run_c03(&mut rep),
+        "C08" => mon_nopanic::run(&mut rep),
+        "C09" => mon_layout::run_c09(&mut rep),
+        "C10" => mon_layout::run_c10(&mut rep),
+        "C11" => mon_layout::run_c11(&mut rep),
+        "C12" => mon_layout::run_c12(&mut rep),
+        "C15" => mon_layout::run_c15(&mut rep),
+        "C16" => mon_layout::run_c16(&mut rep),
+        "C17" => mon_layout::run_c17(&mut rep),
+        "C04" => mon_events::run_c04(&mut rep),
+        "C14" => mon_events::run_c14(&mut rep),
+        "C05" => mon_frame::run_c05(&mut rep),
+        "C06" => mon_frame::run_c06(&mut rep),
+        "C07" => mon_resync::run_both(&mut rep),
+        "C13" => mon_xlate::run(&mut rep),
+        "C18" => mon_compose::run_both(&mut rep),
+        "C19" => mon_pairing::run_both(&mut rep),
         _ => {
             eprintln!("unknown property {}", prop);
             std::process::exit(2);
